@@ -11,7 +11,7 @@ use grin_core::core::hash::{Hash, Hashed};
 use grin_core::core::id::ShortIdentifiable;
 use grin_core::core::transaction::{self, Error as TxError};
 use grin_core::core::{
-	block, committed, Block, BlockHeader, CommitWrapper, CompactBlock, Input, Inputs, KernelFeatures,
+	block, committed, Block, BlockHeader, CommitWrapper, CompactBlock, FeeFields, Input, Inputs, KernelFeatures,
 	NRDRelativeHeight, Output, OutputFeatures, OutputIdentifier, Transaction, TxKernel, Weighting,
 };
 use grin_core::global::{self, ChainTypes};
@@ -116,6 +116,18 @@ struct Stats {
 	sp_operand: BTreeMap<String, u64>,
 	sp_partial3: u64,
 	sp_partial4: u64,
+	/// Block::validate results of the built blocks (by error class)
+	bval: BTreeMap<String, u64>,
+	/// ... of them: blocks whose total offset is zero on a non-zero previous total
+	bval_zero_total: u64,
+	/// short-id lines / compact blocks whose kern_ids were recomputed
+	sid_lines: u64,
+	/// compact blocks written and read back unchanged
+	cb_wire_ok: u64,
+	/// kernel-heavy blocks that went through PoW, both readers and hydration unchanged; by number
+	/// of kernels in the block
+	heavy_ok: u64,
+	heavy_kernels: BTreeMap<usize, u64>,
 }
 
 struct World<'a> {
@@ -142,6 +154,7 @@ struct World<'a> {
 	prev_target: Option<[u8; 32]>,
 	/// a special-sum case is running (statistics)
 	special: bool,
+	valid_cache: HashMap<Hash, bool>,
 }
 
 fn err_name(e: &TxError) -> String {
@@ -154,6 +167,8 @@ fn err_name(e: &TxError) -> String {
 		TxError::Serialization(ser::Error::DuplicateError) => "Dup".to_string(),
 		TxError::InvalidOutputFeatures => "OutputFeatures".to_string(),
 		TxError::InvalidKernelFeatures => "KernelFeatures".to_string(),
+		TxError::TooHeavy => "TooHeavy".to_string(),
+		TxError::InvalidNRDRelativeHeight => "NrdDup".to_string(),
 		other => format!("{:?}", other).replace(' ', ""),
 	}
 }
@@ -164,11 +179,24 @@ fn block_err_name(e: &block::Error) -> String {
 		block::Error::Committed(committed::Error::Secp(_)) => "Secp".to_string(),
 		block::Error::Secp(_) => "Secp".to_string(),
 		block::Error::CutThrough => "CutThrough".to_string(),
+		block::Error::Committed(committed::Error::KernelSumMismatch) => "KernelSumMismatch".to_string(),
+		block::Error::KernelLockHeight(h) => format!("KernelLockHeight({})", h),
 		other => format!("{:?}", other).replace(' ', ""),
 	}
 }
 
 impl<'a> World<'a> {
+	/// `validate(NoLimit)` of an operand, remembered by transaction hash (operands recur in many cases)
+	fn is_valid(&mut self, t: &Transaction) -> bool {
+		let h = t.hash();
+		if let Some(v) = self.valid_cache.get(&h) {
+			return *v;
+		}
+		let v = t.validate(Weighting::NoLimit).is_ok();
+		self.valid_cache.insert(h, v);
+		v
+	}
+
 	fn fresh_key(&mut self) -> Identifier {
 		self.next_key += 1;
 		ExtKeychain::derive_key_id(2, 1, self.next_key, 0, 0)
@@ -230,22 +258,29 @@ impl<'a> World<'a> {
 	}
 
 	fn rand_features(&mut self, fee: u32) -> KernelFeatures {
+		// one kernel in four carries a fee shift (0..15) in its fee fields
+		let ff: FeeFields = if self.rng.chance(1, 4) {
+			FeeFields::new(self.rng.range(0, 15), fee as u64).unwrap()
+		} else {
+			fee.into()
+		};
+		let fee = ff;
 		match self.rng.below(10) {
 			0..=4 => {
 				self.st.kern_plain += 1;
-				KernelFeatures::Plain { fee: fee.into() }
+				KernelFeatures::Plain { fee }
 			}
 			5..=7 => {
 				self.st.kern_hl += 1;
 				KernelFeatures::HeightLocked {
-					fee: fee.into(),
+					fee,
 					lock_height: self.rng.range(0, 5),
 				}
 			}
 			_ => {
 				self.st.kern_nrd += 1;
 				KernelFeatures::NoRecentDuplicate {
-					fee: fee.into(),
+					fee,
 					relative_height: NRDRelativeHeight::try_from(self.rng.range(1, 100) as u16).unwrap(),
 				}
 			}
@@ -415,6 +450,39 @@ impl Ids {
 			commits,
 			kern,
 		}
+	}
+	/// what the validation gates read of a kernel, by kernel rank: feature tag, lock height /
+	/// relative height, fee, id of the excess commitment (byte order of the distinct excesses)
+	fn kmeta_line(&self, kernels: &[TxKernel], out: &mut Out, case_no: u64) {
+		let n = self.kern.len();
+		let mut exs: Vec<Vec<u8>> = kernels.iter().map(|k| k.excess.0.to_vec()).collect();
+		exs.sort();
+		exs.dedup();
+		let (mut feat, mut lock, mut fee, mut exc, mut shift) = (vec![0u64; n], vec![0u64; n], vec![0u64; n], vec![0u64; n], vec![0u64; n]);
+		for k in kernels {
+			let r = self.kern[&k.hash()] as usize;
+			feat[r] = k.features.as_u8() as u64;
+			// the fee fields are read off the raw u64 (40 fee bits, 4 shift bits above them), not through
+			// the accessors the bodies use
+			let raw = |ff: FeeFields| -> (u64, u64) {
+				let v: u64 = ff.into();
+				(v & ((1u64 << 40) - 1), (v >> 40) & 15)
+			};
+			let ((f, sh), l) = match k.features {
+				KernelFeatures::Plain { fee } => (raw(fee), 0),
+				KernelFeatures::Coinbase => ((0, 0), 0),
+				KernelFeatures::HeightLocked { fee, lock_height } => (raw(fee), lock_height),
+				KernelFeatures::NoRecentDuplicate { fee, relative_height } => (raw(fee), u64::from(relative_height)),
+			};
+			fee[r] = f;
+			shift[r] = sh;
+			lock[r] = l;
+			exc[r] = exs.binary_search(&k.excess.0.to_vec()).unwrap() as u64;
+		}
+		out.line(
+			&format!("tx kmeta {} {} {} {} {} {}", case_no, nat_list(&feat), nat_list(&lock), nat_list(&fee), nat_list(&exc), nat_list(&shift)),
+			"-",
+		);
 	}
 	fn c(&self, c: &Commitment) -> u64 {
 		self.commit[&c.0.to_vec()]
@@ -650,7 +718,25 @@ fn describe_tx(ids: &Ids, tx: &Transaction) -> String {
 
 /// One case: a list of operand transactions (clones out of the pool).
 #[allow(clippy::too_many_arguments)]
+/// A case, with every step of it under `catch`: a panic anywhere (an `unwrap` on an honest object
+/// the code under test suddenly refuses, an index out of range …) is reported as a failing case
+/// and the run goes on.
 fn run_case(
+	out: &mut Out,
+	w: &mut World,
+	operands: &[usize],
+	independent: bool,
+	thorough: bool,
+	case_no: u64,
+) {
+	let r = catch(std::panic::AssertUnwindSafe(|| run_case_inner(&mut *out, &mut *w, operands, independent, thorough, case_no)));
+	if let Err(msg) = r {
+		let desc: Vec<String> = operands.iter().map(|i| format!("{}in/{}out/{}k", w.pool[*i].tx.inputs().len(), w.pool[*i].tx.outputs().len(), w.pool[*i].tx.kernels().len())).collect();
+		oracle_fail(out, &mut w.st, &format!("case {}: a step on honest objects panicked: {} (operands {:?}: {})", case_no, msg, operands, desc.join(" ")));
+	}
+}
+
+fn run_case_inner(
 	out: &mut Out,
 	w: &mut World,
 	operands: &[usize],
@@ -689,6 +775,7 @@ fn run_case(
 		case_no, operands, independent
 	));
 	let ids = Ids::build(&commits, &kernels, out, case_no);
+	ids.kmeta_line(&kernels, out, case_no);
 	for (i, t) in txs.iter().enumerate() {
 		let v = match t.inputs() {
 			Inputs::CommitOnly(_) => "c",
@@ -698,6 +785,10 @@ fn run_case(
 		// body_str starts with the variant letter
 		let _ = v;
 		out.line(&format!("tx def {} {} {} {}", case_no, i, hex(t.offset.as_ref()), body), "-");
+		out.line(
+			&format!("tx feeof {} {} {}", case_no, i, nat_list(&t.kernels().iter().map(|k| ids.k(k)).collect::<Vec<_>>())),
+			&format!("{} {} {} {}", t.fee(), t.body.fee_shift(), t.shifted_fee(), t.lock_height()),
+		);
 		if let Inputs::CommitOnly(_) = t.inputs() {
 			let r = match t.validate_read() {
 				Ok(()) => "ok".to_string(),
@@ -711,6 +802,15 @@ fn run_case(
 	let all: Vec<usize> = (0..n).collect();
 	let flat = transaction::aggregate(&txs);
 	out.line(&format!("tx agg {} {}", case_no, idx_str(&all)), &ids.res_str(&flat));
+	if let Ok(agg) = &flat {
+		// fee / fee shift / lock height of the aggregate: those of the union of the kernels
+		let mut ks: Vec<u64> = txs.iter().flat_map(|t| t.kernels().iter().map(|k| ids.k(k))).collect();
+		ks.sort();
+		out.line(
+			&format!("tx feeof {} agg {}", case_no, nat_list(&ks)),
+			&format!("{} {} {} {}", agg.fee(), agg.body.fee_shift(), agg.shifted_fee(), agg.lock_height()),
+		);
+	}
 	// special-sum case: the aggregate exists and carries exactly the chosen sum
 	if let Some((exp, name)) = w.expect_offset.take() {
 		match &flat {
@@ -768,7 +868,7 @@ fn run_case(
 				oracle_fail(out, &mut w.st, &format!("case {}: inputs/outputs of aggregate are not the union minus the matched spend pairs; agg={}", case_no, describe_tx(&ids, agg)));
 			}
 			// validity of the aggregate
-			let all_valid = txs.iter().all(|t| t.validate(Weighting::NoLimit).is_ok());
+			let all_valid = txs.iter().all(|t| w.is_valid(t));
 			let v = agg.validate(Weighting::AsTransaction);
 			let v = match v {
 				Err(TxError::TooHeavy) => agg.validate(Weighting::NoLimit).map_err(|e| e),
@@ -1044,6 +1144,21 @@ fn run_case(
 	if w.rng.chance(1, 2) {
 		prev.total_kernel_offset = BlindingFactor::from_secret_key(w.rand_scalar());
 	}
+	// previous height: around the lock heights of the kernels (0..6) and the hard forks of the
+	// testing chain (3, 6, 9, 12; NRD kernels need header version 4, i.e. height >= 9), now and then
+	// the corners of `prev.height + 1` and of the `as u16` in header_version
+	prev.height = match w.rng.below(16) {
+		0..=5 => w.rng.range(0, 6),
+		6..=12 => w.rng.range(7, 13),
+		13 => *w.rng.pick(&[u64::MAX, u64::MAX - 1, 196_604, 196_606, 196_607, 196_608]),
+		_ => w.rng.next() >> w.rng.below(64),
+	};
+	prev.pow.total_difficulty = match w.rng.below(4) {
+		0 => Difficulty::from_num(w.rng.range(1, 1000)),
+		1 => Difficulty::from_num(u64::MAX - w.rng.range(0, 3)),
+		_ => Difficulty::from_num(w.rng.next() >> w.rng.below(64)),
+	};
+	let difficulty = if w.rng.chance(1, 2) { Difficulty::min_dma() } else { Difficulty::from_num(w.rng.range(1, 5)) };
 	// previous total offset = minus the aggregate's offset: the header's total offset is zero
 	let mut block_cancels = false;
 	if std::mem::take(&mut w.cancel_prev) {
@@ -1062,7 +1177,7 @@ fn run_case(
 			block_target = Some(t);
 		}
 	}
-	let blk = Block::from_reward(&prev, &txs, rout.clone(), rkern.clone(), Difficulty::min_dma());
+	let blk = Block::from_reward(&prev, &txs, rout.clone(), rkern.clone(), difficulty);
 	w.st.blocks += 1;
 	if let Some(t) = block_target {
 		let name = special_name(&t).unwrap_or("other");
@@ -1104,6 +1219,55 @@ fn run_case(
 					ids.body_str(&b.inputs(), b.outputs(), b.kernels())
 				),
 			);
+			// the header from_reward computes
+			out.line(
+				&format!("tx blockhdr {} {} {} {}", case_no, prev.height, prev.pow.total_difficulty.to_num(), difficulty.to_num()),
+				&format!("{} {} {}", b.header.height, b.header.version.0, b.header.pow.total_difficulty.to_num()),
+			);
+			if b.header.prev_hash != prev.hash() {
+				oracle_fail(out, &mut w.st, &format!("case {}: Block::from_reward: prev_hash is not the hash of the previous header", case_no));
+			}
+			// Block::validate of the block just built (operands that are valid themselves only):
+			// the gates in their order, the coinbase equation, and the kernel sums with the offset
+			// block_kernel_offset recovers from the two header totals
+			let all_valid = txs.iter().all(|t| w.is_valid(t));
+			if all_valid {
+				let bv = b.validate(&prev.total_kernel_offset);
+				let r = match &bv {
+					Ok(()) => "ok".to_string(),
+					Err(e) => format!("err:{}", block_err_name(e)),
+				};
+				out.line(
+					&format!("tx bval {} {} {} {} {}", case_no, hex(prev.total_kernel_offset.as_ref()), b.header.height, b.header.version.0, fees),
+					&r,
+				);
+				*w.st.bval.entry(r.split('(').next().unwrap().to_string()).or_insert(0) += 1;
+				let vr = match b.validate_read() {
+					Ok(()) => "ok".to_string(),
+					Err(e) => format!("err:{}", block_err_name(&e)),
+				};
+				out.line(&format!("tx bvread {} {}", case_no, b.header.height), &vr);
+				// the kernel sums are the one check that can only fail through the offset: the
+				// operands are valid and conflict-free enough to aggregate
+				if let Err(block::Error::Committed(committed::Error::KernelSumMismatch)) = &bv {
+					let zero_total = b.header.total_kernel_offset.is_zero() && !prev.total_kernel_offset.is_zero();
+					let msg = format!(
+						"case {}: Block::validate refuses the block Block::from_reward built from valid transactions with KernelSumMismatch: previous total offset {}, block total offset {} (operands {})",
+						case_no, hex(prev.total_kernel_offset.as_ref()), hex(b.header.total_kernel_offset.as_ref()), txs.iter().map(|t| describe_tx(&ids, t)).collect::<Vec<_>>().join(" | ")
+					);
+					if zero_total {
+						// an observation about the code, not a violation of C12 (the block is built and
+						// re-hydrates identically): block_kernel_offset drops the previous total when the
+						// header total is the zero offset (Props/C12Block: block_kernel_offset_drops_prev_iff)
+						w.st.bval_zero_total += 1;
+						if w.st.bval_zero_total <= 2 {
+							out.raw(&format!("#STAT block-validate-zero-total-offset example: {}", msg));
+						}
+					} else {
+						oracle_fail(out, &mut w.st, &msg);
+					}
+				}
+			}
 			// From<Block>: thread-random nonce (not observable in the modelled part)
 			let cb0: CompactBlock = b.clone().into();
 			let compact_line = |cb: &CompactBlock, ids: &Ids| -> (String, bool) {
@@ -1135,8 +1299,28 @@ fn run_case(
 					ids_ok,
 				)
 			};
+			// the short ids themselves, recomputed by the model from (block hash, nonce, kernel
+			// hashes): blake2b -> SipHash-2-4 keys, SipHash of the kernel hash, low 6 bytes, sorted by
+			// the blake2b hash of the 6 bytes
+			let cbids_line = |cb: &CompactBlock| -> (String, String) {
+				let khs: Vec<String> = b.kernels().iter().filter(|k| !k.is_coinbase()).map(|k| hex(k.hash().as_bytes())).collect();
+				(
+					format!("tx cbids {} {} {} [{}]", case_no, hex(cb.header.hash().as_bytes()), cb.nonce, khs.join(",")),
+					format!("[{}]", cb.kern_ids().iter().map(|s| hex(s.as_ref())).collect::<Vec<_>>().join(",")),
+				)
+			};
+			// the compact block as the writer emits it must be read back by the reader, unchanged
+			match wire_roundtrip(&cb0) {
+				Ok(()) => w.st.cb_wire_ok += 1,
+				Err(e) => oracle_fail(out, &mut w.st, &format!("case {}: the wire form of CompactBlock::from(block) is not read back: {} (block with {} inputs, {} outputs, {} kernels; kern_ids {})", case_no, e, b.inputs().len(), b.outputs().len(), b.kernels().len(), cb0.kern_ids().len())),
+			}
 			let (l0, ok0) = compact_line(&cb0, &ids);
 			out.line(&format!("tx compact {} 0", case_no), &l0);
+			{
+				let (l, r) = cbids_line(&cb0);
+				out.line(&l, &r);
+				w.st.sid_lines += 1;
+			}
 			if !ok0 {
 				oracle_fail(out, &mut w.st, &format!("case {}: kern_ids of CompactBlock::from(block) are not the sorted short ids of the non-coinbase kernels", case_no));
 			}
@@ -1174,9 +1358,25 @@ fn run_case(
 					for s in &sids {
 						ser::serialize_default(&mut bytes, s).unwrap();
 					}
-					let cb: CompactBlock = ser::deserialize_default(&mut &bytes[..]).unwrap();
+					let cb: CompactBlock = match catch(std::panic::AssertUnwindSafe(|| ser::deserialize_default::<CompactBlock, _>(&mut &bytes[..]))) {
+						Ok(Ok(cb)) => cb,
+						other => {
+							let e = match other {
+								Ok(Err(e)) => format!("{:?}", e),
+								Err(p) => format!("panic: {}", p),
+								_ => String::new(),
+							};
+							oracle_fail(out, &mut w.st, &format!("case {}: the wire form of the compact block with nonce {} ({} coinbase outputs, {} coinbase kernels, {} sorted short ids of a block with {} inputs / {} outputs / {} kernels) is refused by the reader: {}", case_no, nonce, cb0.out_full().len(), cb0.kern_full().len(), sids.len(), b.inputs().len(), b.outputs().len(), b.kernels().len(), e));
+							continue;
+						}
+					};
 					let (l, okn) = compact_line(&cb, &ids);
 					out.line(&format!("tx compact {} {}", case_no, nonce), &l);
+					{
+						let (l, r) = cbids_line(&cb);
+						out.line(&l, &r);
+						w.st.sid_lines += 1;
+					}
 					if !okn || cb.header.hash() != hh {
 						oracle_fail(out, &mut w.st, &format!("case {}: compact block with nonce {} does not round-trip through its wire form", case_no, nonce));
 					}
@@ -1208,7 +1408,7 @@ fn run_case(
 				// the block built from the grouped (pre-aggregated) operands is the block built from
 				// the flat list
 				{
-					let gb = Block::from_reward(&prev, &inner, rout.clone(), rkern.clone(), Difficulty::min_dma());
+					let gb = Block::from_reward(&prev, &inner, rout.clone(), rkern.clone(), difficulty);
 					let r = match &gb {
 						Err(e) => format!("err:{}", block_err_name(e)),
 						Ok(gb) => {
@@ -1344,6 +1544,118 @@ fn negate(kc: &ExtKeychain, x: &BlindingFactor) -> BlindingFactor {
 	BlindingFactor::from_slice(&r)
 }
 
+/// writer -> reader: the serialized compact block is read back (trusted reader) and is the same
+/// compact block (header hash, nonce, coinbase outputs / kernels, short ids in order), and writing
+/// it again gives the same bytes
+fn wire_roundtrip(cb: &CompactBlock) -> Result<(), String> {
+	let mut bytes: Vec<u8> = vec![];
+	ser::serialize_default(&mut bytes, cb).map_err(|e| format!("writer fails: {:?}", e))?;
+	let back = match catch(std::panic::AssertUnwindSafe(|| ser::deserialize_default::<CompactBlock, _>(&mut &bytes[..]))) {
+		Ok(Ok(x)) => x,
+		Ok(Err(e)) => return Err(format!("reader refuses what the writer wrote: {:?}", e)),
+		Err(p) => return Err(format!("reader panics: {}", p)),
+	};
+	if back.header.hash() != cb.header.hash() || back.nonce != cb.nonce || back.out_full() != cb.out_full() || back.kern_full() != cb.kern_full()
+		|| back.kern_ids().iter().map(|s| s.as_ref().to_vec()).collect::<Vec<_>>() != cb.kern_ids().iter().map(|s| s.as_ref().to_vec()).collect::<Vec<_>>()
+	{
+		return Err("read back as a different compact block".to_string());
+	}
+	let mut again: Vec<u8> = vec![];
+	ser::serialize_default(&mut again, &back).map_err(|e| format!("writer fails on the decoded value: {:?}", e))?;
+	if again != bytes {
+		return Err("re-encoding the decoded compact block gives other bytes".to_string());
+	}
+	Ok(())
+}
+
+/// Kernel-heavy blocks: `txs` (a cut-through chain and / or multi-kernel operands: many kernels,
+/// few surviving inputs and outputs) -> Block::from_reward -> a real proof of work -> CompactBlock
+/// -> bytes -> both readers (CompactBlock, UntrustedCompactBlock) -> Block::hydrate_from with the
+/// transactions one by one and pre-aggregated in groups -> the identical block, byte for byte.
+fn heavy_case(out: &mut Out, w: &mut World, txs: &[Transaction], what: &str) {
+	let r = catch(std::panic::AssertUnwindSafe(|| -> Result<(usize, usize, usize, u64), String> {
+		let fees: u64 = txs.iter().map(|t| t.fee()).sum();
+		let rkey = ExtKeychain::derive_key_id(3, 9, txs.len() as u32, 0, 0);
+		let (rout, rkern) = reward::output(w.kc, &w.pb, &rkey, fees, true).map_err(|e| format!("reward::output: {:?}", e))?;
+		let prev = BlockHeader::default();
+		let mut b = Block::from_reward(&prev, txs, rout, rkern, Difficulty::min_dma()).map_err(|e| format!("Block::from_reward: {}", block_err_name(&e)))?;
+		grin_core::pow::pow_size(&mut b.header, Difficulty::min_dma(), global::proofsize(), global::min_edge_bits())
+			.map_err(|e| format!("pow_size: {:?}", e))?;
+		let cb: CompactBlock = b.clone().into();
+		wire_roundtrip(&cb)?;
+		let mut bytes: Vec<u8> = vec![];
+		ser::serialize_default(&mut bytes, &cb).map_err(|e| format!("writer: {:?}", e))?;
+		let trusted: CompactBlock = ser::deserialize_default(&mut &bytes[..]).map_err(|e| format!("CompactBlock reader refuses what the writer wrote: {:?}", e))?;
+		let untrusted: grin_core::core::UntrustedCompactBlock =
+			ser::deserialize_default(&mut &bytes[..]).map_err(|e| format!("UntrustedCompactBlock reader refuses what the writer wrote: {:?}", e))?;
+		let untrusted: CompactBlock = untrusted.into();
+		let mut want: Vec<u8> = vec![];
+		ser::serialize_default(&mut want, &b).map_err(|e| format!("block writer: {:?}", e))?;
+		// groupings: one by one (reversed), pairs aggregated, everything aggregated
+		let mut groupings: Vec<Vec<Transaction>> = vec![];
+		let mut rev = txs.to_vec();
+		rev.reverse();
+		groupings.push(rev);
+		let mut pairs = vec![];
+		for ch in txs.chunks(2) {
+			pairs.push(transaction::aggregate(ch).map_err(|e| format!("aggregate of a pair: {}", err_name(&e)))?);
+		}
+		groupings.push(pairs);
+		groupings.push(vec![transaction::aggregate(txs).map_err(|e| format!("aggregate of all: {}", err_name(&e)))?]);
+		for (gi, g) in groupings.iter().enumerate() {
+			for (name, c) in [("trusted", &trusted), ("untrusted", &untrusted)] {
+				let hb = Block::hydrate_from(c.clone(), g).map_err(|e| format!("hydrate_from ({} reader, grouping {}): {}", name, gi, block_err_name(&e)))?;
+				let hi: Vec<CommitWrapper> = hb.inputs().into();
+				let bi: Vec<CommitWrapper> = b.inputs().into();
+				let mut got: Vec<u8> = vec![];
+				ser::serialize_default(&mut got, &hb).map_err(|e| format!("block writer: {:?}", e))?;
+				if hi != bi || got != want {
+					return Err(format!("hydrated block ({} reader, grouping {}) differs from the block byte for byte", name, gi));
+				}
+			}
+		}
+		// the block itself through the wire
+		// Block::validate: accepted up to and including the weight limit (68 transactions make
+		// exactly 250), TooHeavy above
+		let bv = b.validate(&prev.total_kernel_offset);
+		match (&bv, b.body.weight() <= global::max_block_weight()) {
+			(Ok(()), true) => {}
+			(Err(block::Error::Transaction(TxError::TooHeavy)), false) => {}
+			(r, within) => {
+				return Err(format!("Block::validate of a block of weight {} (limit {}, within: {}) answers {:?}", b.body.weight(), global::max_block_weight(), within, r.as_ref().map_err(block_err_name)));
+			}
+		}
+		// (the reader of a full block has a weight pre-check, TransactionBody::read: a block above
+		// max_block_weight is refused with TooLargeReadErr, one within it must be read back)
+		let within = b.body.weight() <= global::max_block_weight();
+		match ser::deserialize_default::<Block, _>(&mut &want[..]) {
+			Ok(rb) => {
+				if !within {
+					return Err(format!("Block reader accepts a block of weight {} above the limit {}", b.body.weight(), global::max_block_weight()));
+				}
+				if rb.hash() != b.hash() || rb.body != b.body {
+					return Err("block read back differs".to_string());
+				}
+			}
+			Err(e) => {
+				if within {
+					return Err(format!("Block reader refuses what the writer wrote (weight {} within the limit {}): {:?}", b.body.weight(), global::max_block_weight(), e));
+				}
+			}
+		}
+		Ok((b.inputs().len(), b.outputs().len(), b.kernels().len(), b.body.weight()))
+	}));
+	match r {
+		Ok(Ok((i, o, k, wgt))) => {
+			w.st.heavy_ok += 1;
+			*w.st.heavy_kernels.entry(k).or_insert(0) += 1;
+			out.raw(&format!("# heavy {}: {} txs -> block {} in / {} out / {} kernels, weight {}: wire + hydrate identical", what, txs.len(), i, o, k, wgt));
+		}
+		Ok(Err(e)) => oracle_fail(out, &mut w.st, &format!("kernel-heavy block ({}: {} transactions, {} kernels in all): {}", what, txs.len(), txs.iter().map(|t| t.kernels().len()).sum::<usize>(), e)),
+		Err(p) => oracle_fail(out, &mut w.st, &format!("kernel-heavy block ({}: {} transactions): a step panicked: {}", what, txs.len(), p)),
+	}
+}
+
 fn main() {
 	global::set_local_chain_type(ChainTypes::AutomatedTesting);
 	global::set_local_nrd_enabled(true);
@@ -1371,6 +1683,7 @@ fn main() {
 		expect_offset: None,
 		prev_target: None,
 		special: false,
+		valid_cache: HashMap::new(),
 	};
 
 	eprintln!("tx phase {} at {:?}", 0, t_start.elapsed());
@@ -1821,6 +2134,66 @@ fn main() {
 		}
 	}
 
+	// ---- kernel-heavy blocks: one long cut-through chain A -> X1 -> X2 -> ... (every prefix of
+	// length n aggregates to 1 input, 1 output, n kernels), taken in prefixes of n = 1 .. 80
+	// transactions (the block weight limit of the testing chain, 250, is reached at 68 kernels:
+	// the lengths go well past max_block_weight / 25 and past the limit itself), as single-kernel
+	// operands and as two- / four-kernel operands; each block goes through a real proof of work,
+	// the wire form of its compact block, both readers and hydration (heavy_case); the shorter
+	// ones also through the ordinary modelled case.
+	{
+		let nchain = 80usize;
+		let mut chain: Vec<Transaction> = vec![];
+		let mut v = 5000u64;
+		let mut key = w.fresh_key();
+		for i in 0..nchain {
+			let nk = w.fresh_key();
+			let feat = if i % 7 == 3 {
+				KernelFeatures::HeightLocked { fee: 1u32.into(), lock_height: 1 }
+			} else {
+				KernelFeatures::Plain { fee: 1u32.into() }
+			};
+			let mode = if i % 5 == 0 { OffMode::Zero } else { OffMode::Random };
+			let t = w.build_tx(&[(v, key.clone())], &[(v - 1, nk.clone())], feat, mode, None);
+			v -= 1;
+			key = nk;
+			chain.push(t);
+		}
+		let lens: Vec<usize> = if thorough { (1..=nchain).collect() } else { vec![1, 2, 3, 5, 8, 9, 10, 11, 12, 13, 16, 20, 25, 32, 40, 50, 60, 66, 67, 68, 69, 72, 80] };
+		for n in &lens {
+			heavy_case(&mut out, &mut w, &chain[..*n], "chain prefix, single-kernel operands");
+			if *n >= 4 {
+				// the same prefix handed over as multi-kernel operands
+				let mut quads = vec![];
+				let mut ok = true;
+				for ch in chain[..*n].chunks(4) {
+					match transaction::aggregate(ch) {
+						Ok(t) => quads.push(t),
+						Err(_) => ok = false,
+					}
+				}
+				if ok {
+					heavy_case(&mut out, &mut w, &quads, "chain prefix, four-kernel operands");
+				}
+			}
+		}
+		// ... and through the ordinary case (model comparison, groupings, de-aggregation)
+		let base = w.pool.len();
+		for t in chain.iter().take(24) {
+			w.pool.push(PTx { tx: t.clone(), family: usize::MAX, parents: vec![], conflict: false, parts: vec![] });
+		}
+		for n in [9usize, 12, 17, 24] {
+			let ops: Vec<usize> = (base..base + n).collect();
+			case_no += 1;
+			run_case(&mut out, &mut w, &ops, false, thorough, case_no);
+		}
+		w.pool.truncate(base);
+		out.raw(&format!(
+			"#STAT kernel-heavy blocks: {} blocks went through proof of work, compact wire form, both readers and hydration unchanged; kernels per block {:?}; compact blocks of the ordinary cases written and read back unchanged: {}",
+			w.st.heavy_ok, w.st.heavy_kernels, w.st.cb_wire_ok
+		));
+	}
+
 	eprintln!("tx phase {} at {:?}", 7, t_start.elapsed());
 	// ---- size boundaries: aggregates and blocks of exactly the maximal weight, and an aggregate
 	// with more than a thousand outputs (validated without a weight limit)
@@ -1931,6 +2304,10 @@ fn main() {
 	out.raw(&format!(
 		"#STAT kernels built: plain={} height-locked={} nrd={} sharing-the-previous-excess={}; offsets: zero={} nonzero={}",
 		st.kern_plain, st.kern_hl, st.kern_nrd, st.shared_excess, st.off_zero, st.off_nonzero
+	));
+	out.raw(&format!(
+		"#STAT block-validate-zero-total-offset cases={} (blocks from_reward built with the zero total offset on a non-zero previous total: Block::validate answers KernelSumMismatch, as the model predicts); Block::validate of all built blocks (valid operands) by outcome={:?}; compact blocks whose short ids were recomputed by the model={}",
+		st.bval_zero_total, st.bval, st.sid_lines
 	));
 	out.raw(&format!(
 		"#STAT aggregate: ok={} err={:?} cut-through pairs (flat)={} permutations={} groupings={} (inner error {}) validate runs={} validate errors={:?}",
